@@ -191,6 +191,41 @@ func runC16Routing(l *evlog.Log, c *evlog.Case, cs *c16Case) {
 		}
 		check("server", w.ServerTr, wiretap.S2C, tap.ServerSCID)
 		check("client", w.ClientTr, wiretap.C2S, tap.ClientSCID)
+		// ---- a foreign ID never reaches the connection, also not behind a packet with a valid ID: a datagram
+		// whose first packet is a long header packet for the connection (right version and ID, undecryptable:
+		// the Initial keys are gone) followed by a correctly protected 1-RTT packet that names another
+		// connection ID and carries a CONNECTION_CLOSE.  Processing the second packet would end the connection.
+		for _, victimIsClient := range []bool{true, false} {
+			sender, from, to := wiretap.S2C, net.Addr(quicworld.ServerAddr), net.Addr(quicworld.ClientAddr)
+			if !victimIsClient {
+				sender, from, to = wiretap.C2S, to, from
+			}
+			w.Wire.Lock()
+			valid := append([]byte(nil), tap.LastDCID[sender]...)
+			ver := tap.Version
+			w.Wire.Unlock()
+			if len(valid) == 0 {
+				continue // the victim uses zero-length IDs: there is no "other" ID of the same length
+			}
+			foreign := make([]byte, len(valid))
+			for i := range foreign {
+				foreign[i] = valid[i] ^ 0x5a
+			}
+			short, err := tap.ForgeShortTo(sender, foreign, wiretap.ConnectionCloseFrame(0x0a, "forged"))
+			if err != nil {
+				viol("harness|forge", "%v", err)
+				break
+			}
+			long := wiretap.InitialPacket(ver, sender, []byte{1, 2, 3, 4, 5, 6, 7, 8}, valid, []byte{9, 9, 9, 9}, nil, 3, []byte{0x01}, 300)
+			w.Router.Inject(sender, from, to, append(long, short...), 0)
+			time.Sleep(200 * time.Millisecond)
+			l.Count("coalesced_foreign_id_datagrams", 1)
+			if cc.Context().Err() != nil || sc.Context().Err() != nil {
+				viol("foreign-id-reached-connection|coalesced", "a 1-RTT packet with destination connection ID %x (never issued) coalesced behind a long header packet for %x was processed: client %v, server %v", foreign, valid, context.Cause(cc.Context()), context.Cause(sc.Context()))
+				cancel()
+				return
+			}
+		}
 		if cs.BulkMB > 0 {
 			w.Wire.Lock()
 			rot := len(tap.RetiredSeqs[wiretap.C2S]) + len(tap.RetiredSeqs[wiretap.S2C])
